@@ -1478,6 +1478,10 @@ func (g *Generator) generateDateTimeValidators(gf *protogen.GeneratedFile) {
 	gf.P("func validateTimeFormat(value string) error {")
 	gf.P("_, err := time.Parse(\"15:04:05\", value)")
 	gf.P("if err != nil {")
+	gf.P("// OpenAPI's time format is an RFC 3339 full-time, which carries a UTC offset")
+	gf.P("if _, offsetErr := time.Parse(\"15:04:05.999999999Z07:00\", value); offsetErr == nil {")
+	gf.P("return nil")
+	gf.P("}")
 	gf.P(`return fmt.Errorf("invalid time format, expected HH:MM:SS: %w", err)`)
 	gf.P("}")
 	gf.P("return nil")
